@@ -430,3 +430,5 @@ brk("c10-close-dropped", ["C10"], (CACHE, '    cache.close_and_save_cache(kwargs
 brk("c10-item-arity", ["C10"], (CACHE, "            if len(args) < 2:", "            if len(args) <= 2:"))
 brk("c04-dispatch-hash-eddsa-flipped", ["C04"], (KMS, '            if algorithm == "hash-eddsa":\n                return self._create_cose_ed_prehashed_signature', '            if algorithm != "hash-eddsa":\n                return self._create_cose_ed_prehashed_signature'))
 brk("c04-dispatch-ed-and", ["C04"], (KMS, "        elif isinstance(private_key, Ed25519PrivateKey) or isinstance(private_key, Ed448PrivateKey):\n            if algorithm", "        elif isinstance(private_key, Ed25519PrivateKey) and isinstance(private_key, Ed448PrivateKey):\n            if algorithm"))
+brk("c01-severable-guard-not-in", ["C01"], (ENV, "            if severable_element in self.SuitEnvelopeTagged.value.SuitEnvelope[suit_manifest].SuitManifest and hasattr(", "            if severable_element not in self.SuitEnvelopeTagged.value.SuitEnvelope[suit_manifest].SuitManifest and hasattr("))
+brk("c01-severable-guard-or", ["C01"], (ENV, "            if severable_element in self.SuitEnvelopeTagged.value.SuitEnvelope[suit_manifest].SuitManifest and hasattr(", "            if severable_element in self.SuitEnvelopeTagged.value.SuitEnvelope[suit_manifest].SuitManifest or hasattr("))
